@@ -158,3 +158,55 @@ impl<'a> Emitter<'a> {
         let _ = self.out.flush();
     }
 }
+
+/// Names harvested from the source of the crates as it stands: every identifier-like segment of every string
+/// literal in the non-test sources (`"{}_script"` gives `_script`, `"collateral"` gives `collateral`). A generator
+/// that draws names for blocks, parameters or parties from this pool meets whatever a piece of code has come to
+/// treat specially by name - by equality, prefix, suffix or containment - without knowing which.
+pub fn magic_names() -> Vec<String> {
+    fn walk(dir: &std::path::Path, out: &mut Vec<std::path::PathBuf>) {
+        if let Ok(rd) = std::fs::read_dir(dir) {
+            let mut es: Vec<_> = rd.flatten().map(|e| e.path()).collect();
+            es.sort();
+            for p in es {
+                if p.is_dir() {
+                    let n = p.file_name().and_then(|x| x.to_str()).unwrap_or("");
+                    if n != "target" && n != "tests" && n != "snapshots" {
+                        walk(&p, out);
+                    }
+                } else if p.extension().and_then(|x| x.to_str()) == Some("rs") {
+                    out.push(p);
+                }
+            }
+        }
+    }
+    let root = std::env::var("TX3_REPO").unwrap_or_else(|_| "/repo".to_string());
+    let mut files = vec![];
+    for c in ["crates/tx3-resolver/src", "crates/tx3-tir/src", "crates/tx3-cardano/src", "crates/tx3-lang/src", "bin/tx3c/src"] {
+        walk(&std::path::Path::new(&root).join(c), &mut files);
+    }
+    let mut seen = std::collections::BTreeSet::new();
+    for f in files {
+        let Ok(text) = std::fs::read_to_string(&f) else { continue };
+        for line in text.lines() {
+            let t = line.trim_start();
+            if t.starts_with("//") {
+                continue;
+            }
+            let mut rest = line;
+            while let Some(a) = rest.find('"') {
+                let after = &rest[a + 1..];
+                let Some(b) = after.find('"') else { break };
+                let lit = &after[..b];
+                for seg in lit.split(|c: char| !(c.is_ascii_alphanumeric() || c == '_')) {
+                    let s = seg.to_ascii_lowercase();
+                    if s.len() >= 3 && s.len() <= 20 && s.chars().any(|c| c.is_ascii_alphabetic()) {
+                        seen.insert(s);
+                    }
+                }
+                rest = &after[b + 1..];
+            }
+        }
+    }
+    seen.into_iter().collect()
+}
